@@ -35,7 +35,7 @@ ASSUMPTIONS = ['level-free scope options in the completeness oracle (depth limit
 UNPROVED = []
 
 
-def _child(site_desc, opts, conc, seed, workdir, logpath, kill):
+def _child(site_desc, opts, conc, seed, workdir, logpath, kill, run_index=0):
     """Runs in a forked child. kill = None | ('table', k) | ('commit', k) | ('request', k)."""
     fd = os.open(logpath, os.O_WRONLY | os.O_CREAT | os.O_APPEND, 0o644)
     counters = {'table': 0, 'commit': 0, 'request': 0}
@@ -65,7 +65,8 @@ def _child(site_desc, opts, conc, seed, workdir, logpath, kill):
     rc = 3
     try:
         res, _ = cc.run_real(site, opts, seed, conc, workdir=workdir, db=os.path.join(workdir, 'crawl.db'),
-                             event_sink=sink, on_request=on_request, start_urls=site.start_urls() if site.inputs else None)
+                             event_sink=sink, on_request=on_request, start_urls=site.start_urls() if site.inputs else None,
+                             run_index=run_index)
         os.write(fd, (json.dumps({'op': 'exit', 'exit_code': res.exit_code, 'hung': res.hung, 'error': res.error,
                                   'counters': counters}) + '\n').encode())
         rc = 0
@@ -76,13 +77,13 @@ def _child(site_desc, opts, conc, seed, workdir, logpath, kill):
     os._exit(rc)
 
 
-def spawn(site_desc, opts, conc, seed, workdir, logpath, kill):
+def spawn(site_desc, opts, conc, seed, workdir, logpath, kill, run_index=0):
     pid = os.fork()
     if pid == 0:
         try:
             devnull = os.open(os.devnull, os.O_WRONLY)
             os.dup2(devnull, 2)
-            _child(site_desc, opts, conc, seed, workdir, logpath, kill)
+            _child(site_desc, opts, conc, seed, workdir, logpath, kill, run_index)
         finally:
             os._exit(5)
     _, status = os.waitpid(pid, 0)
@@ -127,25 +128,30 @@ def one_kill(args):
         log2 = os.path.join(wd, 'run2.log')
         rc1 = spawn(site_desc, opts, conc, seed, wd, log1, kill)
         rows_after_kill = read_rows_of_copy(wd)
-        rc2 = spawn(site_desc, opts, conc, seed + 1, wd, log2, None)
+        rc2 = spawn(site_desc, opts, conc, seed + 1, wd, log2, None, run_index=1)
         rows_final = cc.appsim.read_rows(os.path.join(wd, 'crawl.db')) if os.path.exists(os.path.join(wd, 'crawl.db')) else []
         ev1, ev2 = read_log(log1), read_log(log2)
     finally:
         shutil.rmtree(wd, ignore_errors=True)
     site = cc.Site.from_desc(site_desc)
     ref = cc.RefCrawl(site, opts)
+    ref2 = cc.RefCrawl(site, opts, run_index=1)      # the rerun: a server-side outage ('flaky' pages) is over
     ids = cc.Ids()
     start = site.start_urls()
     t1 = [e for e in ev1 if e['op'] not in ('server-request', 'exit')]
     t2 = [e for e in ev2 if e['op'] not in ('server-request', 'exit')]
     killed = rc1 == 77
     line = None
-    if killed:
+    if killed and not site.inputs:      # (a long input list is committed in several batches: start-up is one step in the model)
         e1, b1, _ = cc.trace_to_events(t1, ids, ref, True)
-        e2, b2, _ = cc.trace_to_events(t2, ids, ref, False)
+        e2, b2, _ = cc.trace_to_events(t2, ids, ref2, False)
         b = dict(b1)
         b.update(b2)
-        visits = cc.build_visits(t1 + t2, ids, ref, b)
+        # a row handed out in both runs (same record and try count) was not finished by the killed run: what the
+        # rerun did with it is the visit that counts (an outage may be over: 'flaky' pages)
+        visits = cc.build_visits(t2, ids, ref2, b)
+        keys = {v.split(':', 1)[0] for v in visits}
+        visits += [v for v in cc.build_visits(t1, ids, ref, b) if v.split(':', 1)[0] not in keys]
         evs = e1 + ['c'] + e2
         line = 'crawl accept %d %s %s %s' % (conc + 2, cc.enc([ids(u) for u in start]), ';'.join(visits) or '~', ';'.join(evs) or '~')
     return {'kill': kill, 'rc1': rc1, 'rc2': rc2, 'killed': killed, 'line': line,
@@ -252,12 +258,20 @@ def run(ctx):
     for case in load_corpus(ctx):
         replay(ctx, case)
     rng = ctx.rng
-    nsites = ctx.scale(3, 40)
+    nsites = ctx.scale(4, 40)
     total = 0
     for i in range(nsites):
         site = cc.gen_site(rng, size=rng.randint(3, 6), offsite=False)
         opts = cc.gen_options(rng, levelfree=True)
-        opts['tries'] = rng.choice([1, 1, 2, 3])        # a try count carried across the kill must not eat the only try
+        # the dimensions that matter across a kill rotate, so that every run (also the 4 sites of the quick tier) has each:
+        # -N (the rerun finds files the killed run saved), a try count carried across the kill, an outage that is over
+        # by the rerun ('flaky': 500 in the killed run, 200 afterwards)
+        plan = i % 4
+        opts['timestamping'] = plan == 0 or rng.random() < 0.15
+        opts['tries'] = 1 if plan == 2 else rng.choice([2, 2, 3])
+        leaves = [p for p, d in site.pages.items() if d['kind'] == 'leaf']
+        if leaves and (plan == 1 or rng.random() < 0.25):
+            site.pages[rng.choice(leaves)] = {'kind': 'flaky'}
         conc = rng.choice([1, 2, 3])
         total += explore_site(ctx, site, opts, conc, rng.randrange(1 << 30)) or 0
     ctx.exhaustive = False
